@@ -151,12 +151,37 @@ def lits_of(body, block, facts):
         return c
     cfg = cfg_of(body)
     out = []
+    single = set()
     for (s, k, v, tgt) in cfg.dominating_edges(block):
         lit = decode(body, s, v, facts)
         lit.edge = (s, k, v, tgt)
         out.append(lit)
+        single.add(s)
         if lit.kind == "flag" and lit.truth is not None:
             out.extend(_refine_flag(body, s, lit.truth, facts))
+    # or-patterns (`A | B => ..`, matches!(x, A | B)): several edges of one enum switch lead to the block; the union of
+    # their variants holds there although no single edge dominates it
+    for sb in cfg.dominators_of(block):
+        if sb >= cfg.n or sb in single or sb == block:
+            continue
+        term = body.blocks[sb].term
+        if term.kind != "switch" or term.j.get("discr_ty") == "bool":
+            continue
+        edges = term.switch_edges()
+        if len(edges) < 3:
+            continue
+        via = []
+        for k, (v, tgt) in enumerate(edges):
+            e = cfg.edge_nodes.get((sb, k))
+            if e is not None and cfg.reaches(e, block, avoid={sb}):
+                via.append((k, v, tgt))
+        if not via or len(via) == len(edges):
+            continue
+        lits = [decode(body, sb, v, facts) for (k, v, tgt) in via]
+        if all(l.kind == "variant" and l.variants is not None for l in lits):
+            u = Lit("variant", lits[0].term, None, set().union(*[l.variants for l in lits]), sb, lits[0].raw, None, lits[0].adt)
+            u.edge = (sb, via[0][0], via[0][1], via[0][2])
+            out.append(u)
     body._cache[key] = out
     return out
 
